@@ -242,3 +242,19 @@ func (env *Env) reopen() {
 		panic(err)
 	}
 }
+
+var tempDirs []string
+
+func mkTemp(prefix string) (string, error) {
+	d, err := os.MkdirTemp(scratchRoot(), prefix)
+	if err == nil {
+		tempDirs = append(tempDirs, d)
+	}
+	return d, err
+}
+
+func cleanupTemps() {
+	for _, d := range tempDirs {
+		os.RemoveAll(d)
+	}
+}
